@@ -17,6 +17,7 @@ _ATOM_IDS = {}
 _ATOM_KEYS = []
 _ATOM_RANGE = {}
 _WIDEN_COUNT = {}
+_DEBUG_WIDEN = int(__import__('os').environ.get('DEBUG_WIDEN', '0'))
 
 
 def atom(key, rng=None):
@@ -991,23 +992,29 @@ class Joiner:
         lo, hi = new
         tl, th = atom_range(a)
         if hi > old[1]:
-            n = _WIDEN_COUNT.get((a, 1), 0) + 1
-            _WIDEN_COUNT[(a, 1)] = n
+            n = _WIDEN_COUNT.get((self.nk, a, 1), 0) + 1
+            _WIDEN_COUNT[(self.nk, a, 1)] = n
             if n >= 6 or old[1] == INF:
                 hi = th
             elif n >= 3:
-                want = max(hi, int(old[1] * 1.5) if n == 3 else (hi if n == 4 else int(old[1] * 16)))
+                if n == 3 or hi - old[1] <= 1:
+                    want = hi
+                else:
+                    want = max(hi, int(old[1] * 2)) if n == 4 else max(hi, int(old[1] * 16))
                 c = [t for t in self.thr if t >= want] if self.thr else []
                 hi = min(c) if c else th
                 hi = min(hi, th)
+                if _DEBUG_WIDEN and hi == _DEBUG_WIDEN:
+                    import sys
+                    sys.stderr.write("WIDEN a%d %s nk=%s old=%r new=%r n=%d want=%r\n" % (a, repr(atom_key(a))[-100:], repr(self.nk)[-120:], old, new, n, want))
         if lo < old[0]:
-            n = _WIDEN_COUNT.get((a, 0), 0) + 1
-            _WIDEN_COUNT[(a, 0)] = n
+            n = _WIDEN_COUNT.get((self.nk, a, 0), 0) + 1
+            _WIDEN_COUNT[(self.nk, a, 0)] = n
             if n >= 6 or old[0] == -INF:
                 lo = tl
             elif n >= 3:
                 want = lo
-                f = 1.5 if n == 3 else (1 if n == 4 else 16)
+                f = 1 if (n == 3 or old[0] - lo <= 1) else (2 if n == 4 else 16)
                 if old[0] > 0:
                     want = min(lo, int(old[0] / f))
                 elif old[0] < 0:
@@ -1025,8 +1032,21 @@ class Joiner:
         l1, h1 = self.s1.iv2(a.lin)
         l2, h2 = self.s2.iv2(b.lin)
         rng = None
-        if a.rng is not None and b.rng is not None:
-            rng = (min(a.rng[0], b.rng[0]), max(a.rng[1], b.rng[1]))
+        ra, rb = a.rng, b.rng
+        if ra is None:
+            sg = a.lin.single()
+            if sg and sg[1] == 1 and sg[2] == 0 and atom_range(sg[0])[0] != -INF:
+                ra = atom_range(sg[0])
+            elif not a.lin.d:
+                ra = rb
+        if rb is None:
+            sg = b.lin.single()
+            if sg and sg[1] == 1 and sg[2] == 0 and atom_range(sg[0])[0] != -INF:
+                rb = atom_range(sg[0])
+            elif not b.lin.d:
+                rb = ra
+        if ra is not None and rb is not None:
+            rng = (min(ra[0], rb[0]), max(ra[1], rb[1]))
         if a.rng is not None:
             l1, h1 = max(l1, a.rng[0]), min(h1, a.rng[1])
         if b.rng is not None:
@@ -1299,4 +1319,14 @@ def gc_state(st, extra=None):
     # facts: keep those whose atoms are all referenced
     st.facts = {f for f in st.facts if all(a in used for a in f.d)}
     st.atoms = {a: r for a, r in st.atoms.items() if a in used}
+    if st.defs:
+        keep = set(used)
+        for a, d in st.defs.items():
+            if a in used:
+                keep.update(d[1].d.keys())
+                keep.update(d[2].d.keys())
+        st.defs = {a: d for a, d in st.defs.items() if a in keep}
+    if st.created:
+        st.created = st.created & used
+    st._idx = None
     return st
